@@ -42,6 +42,10 @@ class Runaway(Exception):
     """An operation used up its evaluation budget without completing (liveness guard)."""
 
 
+class StepExhausted(Exception):
+    """HamiltonianChain's documented 'failed to take step' error: legitimate end of a history."""
+
+
 CTX = None
 
 
